@@ -269,7 +269,7 @@ add("c13_parts", ["C13"], "quick",
     ["get_capture_char", "get_check_or_checkmate_char", "algebraic_castle", "get_promotion_chars"], "symbolic squares, capture tag, effect, colour", module=AN, est_s=60)
 for kind in ["std", "promo", "ep", "oo", "ooo"]:
     for col, cname in [("w", "White"), ("b", "Black")]:
-        add(f"c19_cls_{kind}_{col}", ["C19"], "quick" if kind in ("std", "oo", "ep") else "thorough",
+        add(f"c19_cls_{kind}_{col}", ["C19"], "quick",
             f"create_chess_move_from_uci on the standard long-coordinate text of a Legalish {KIND_NAMES[kind]} by {cname} (text built from symbolic bytes), in the same position with the mover to move: result == the move (kind, squares, capture tag, promotion piece)",
             ["create_chess_move_from_uci", "Board::get", "Board::peek_en_passant_target", "Board::turn"],
             STEP_ASSUME.replace("; counters below 255", ""),
@@ -279,7 +279,7 @@ for kind in ["std", "promo", "ep", "oo", "ooo"]:
 VSTUB = "evaluate::player_is_in_checkmate / player_is_in_check -> arbitrary answers + record of (player, board occupancy) they were asked about; contracts: c06_ending_*, c06_check_*"
 for kind in ["std", "promo", "ep", "oo", "ooo"]:
     for col, cname in [("w", "White"), ("b", "Black")]:
-        add(f"c06_effect_{kind}_{col}", ["C06", "C04"], "quick" if kind in ("std", "oo") else "thorough",
+        add(f"c06_effect_{kind}_{col}", ["C06", "C13"], "quick",
             f"lazily_calculate_chess_move_effect on a Legalish {KIND_NAMES[kind]} by {cname}: applies the move, asks the verdicts about the OPPONENT on the SUCCESSOR position, undoes; stores Checkmate if mated, else Check if in check, else None; board bit-identical afterwards",
             ["MoveGenerator::lazily_calculate_chess_move_effect", "ChessMove::apply", "ChessMove::undo", "ChessMove::set_effect"] + APPLY_FNS[kind],
             STEP_ASSUME, stubs=[VSTUB], module=MG, est_s=200)
@@ -295,6 +295,41 @@ add("c19_uci_promo_suffix", ["C19"], "quick",
     "ChessMove::to_uci of a capturing promotion a7xb8 for each of the four promotion pieces (the whole domain of the suffix selector) and of a plain move: origin, destination, suffix letter q/r/b/n naming the piece / no suffix",
     ["ChessMove::to_uci", "to_algebraic", "alloc::fmt::format"], "all arguments concrete (core::fmt with symbolic &str arguments is not executable in CBMC: >10 GB measured); exhaustive over the promotion piece, squares fixed",
     module=AN, unwind=66, est_s=300)
+
+add("c02_wire_move_cache", ["C02"], "quick",
+    "MoveGenerator::generate_moves: the move cache is consulted and filled under the key (this position's key, colour asked about); a hit returns the stored list without generating; a miss generates for this board and colour and stores under the same key",
+    ["MoveGenerator::generate_moves"], "fully symbolic Disjoint board (symbolic key), symbolic colour, symbolic hit/miss",
+    stubs=[NOSPILL, "lru::LruCache::get / ::put -> recorders of the key (hit/miss chosen by the harness): the LRU's own hashing/eviction is outside the claim; generate_valid_moves -> marker list + argument record (its contract: the C01 stage harnesses)"],
+    module=MG, est_s=200, native=[])
+add("c02_wire_attack_cache", ["C02"], "quick",
+    "MoveGenerator::get_attack_targets: the attack cache is consulted and filled under (colour asked about, this position's key); a hit is returned as is; a miss generates for this board and colour and stores the result",
+    ["MoveGenerator::get_attack_targets"], "fully symbolic Disjoint board, symbolic colour, symbolic cached value / miss",
+    stubs=["Targets::get_cached_attack / cache_attack (three-line FxHashMap wrappers) -> recorders; Targets::generate_attack_targets -> arbitrary bitboard + argument record"],
+    module=MG, est_s=60, native=[])
+
+UFSTUB = "MagicTable::get_rook_targets / get_bishop_targets -> uninterpreted per-square functions R[sq], B[sq] (symbolic [u64;64], exact within one call because the occupancy argument is computed once); tied to the reference rays by C11 (M1-M3)"
+for col, cname in [("w", "White"), ("b", "Black")]:
+    add(f"c01_pawn_attacks_{col}", ["C01", "C06"], "quick",
+        f"generate_pawn_attack_targets for {cname}: one entry per own pawn, attack set == its two forward diagonals with no wrap across the a/h files, entries distinct",
+        ["generate_pawn_attack_targets"], "fully symbolic Disjoint board; <=8 own pawns, none on rank 1/8", stubs=[NOSPILL], module=MG, unwind=66, est_s=150, native=[])
+    add(f"c01_pawn_targets_{col}", ["C01"], "thorough",
+        f"generate_pawn_move_targets for {cname}: exactly the own pawns with a push available, targets == single push to an empty square plus the double push from the home rank through two empty squares",
+        ["generate_pawn_move_targets"], "fully symbolic Disjoint board; <=8 own pawns, none on rank 1/8", stubs=[NOSPILL], module=MG, unwind=66, est_s=400, heavy=True, native=[])
+    add(f"c01_expand_{col}", ["C01"], "thorough",
+        f"expand_piece_targets for {cname}: one Standard move per target bit (<=27), origin preserved, capture tag == enemy piece on the destination, appended after existing entries, no duplicates",
+        ["expand_piece_targets", "PieceSet::get", "Bitboard::pop_lsb"], "fully symbolic Disjoint board; one symbolic (square, targets) entry with <=27 targets disjoint from own pieces", stubs=[NOSPILL], module=MG, unwind=30, est_s=400, heavy=True, native=[])
+    add(f"c01_slider_{col}", ["C01", "C06"], "thorough",
+        f"generate_sliding_targets for {cname} (k-piece shape: own king + <=3 further own pieces of symbolic kind and square, opponent side fully symbolic): one entry per own rook/bishop/queen with targets == lookup(square) minus own pieces (queen: rook|bishop lookup), nothing for other pieces, lookups given the whole-board occupancy",
+        ["Targets::generate_sliding_targets"], "k-piece shape, see claim", stubs=[NOSPILL, UFSTUB], module=MG, unwind=66, est_s=600, heavy=True, native=[])
+    for pc in ["knight", "king"]:
+        add(f"c01_leaper_{pc}_{col}", ["C01", "C06"], "thorough",
+            f"generate_targets_from_precomputed_tables({pc}) for {cname} with uninterpreted tables: entries == {{(sq, table[sq] minus own pieces) : sq holds an own {pc}, set non-empty}}, complete and duplicate-free",
+            ["Targets::generate_targets_from_precomputed_tables", "Targets::get_precomputed_targets"], "fully symbolic Disjoint board; <=3 own pieces of the kind; tables symbolic [u64;64] (their contents: m5_*)", stubs=[NOSPILL], module=MG, unwind=66, est_s=400, heavy=True, native=[])
+    add(f"a1_union_{col}", ["C01", "C06"], "quick",
+        f"generate_attack_targets for {cname} with its four builders stubbed: each builder runs once for the requested colour, the attack map is the union of all target sets",
+        ["Targets::generate_attack_targets"], "fully symbolic Disjoint board; symbolic builder outputs",
+        stubs=[NOSPILL, "generate_pawn_attack_targets, Targets::generate_sliding_targets, Targets::generate_targets_from_precomputed_tables -> push one symbolic entry + record the colour; contracts: c01_pawn_attacks_*, c01_slider_*, c01_leaper_*"],
+        module=MG, est_s=60, native=[])
 
 def witness(name, props, module, desc, unwind=8, est_s=60):
     add(name, props, "quick", "vacuity witness: " + desc + "; same set-up as the obligations of this family, ends in assert!(false); must FAIL on exactly that assertion",
